@@ -11,6 +11,19 @@ runs until none is enabled.  Start-up: thread 0 runs to its first stop, then thr
 
 Outcome: 'completed' or 'deadlock' (some thread unfinished, none enabled), the exceptions
 raised per (thread, call index), the final dict contents, whether all locks are free.
+
+Iterating readers (`trace_store`, `judge_iterations`): the store under the scheduler is an instance
+of a subclass made on the fly whose `documents` generator and expiry collection
+(`_expire_documents` / `_value_meets_expiry`) are wrapped; the wrappers change nothing, they write
+into the scheduler's log when an iteration begins, which document it hands out at every step and
+when it is over, next to the entries / exits of write sections (`MonitorRWLock`) and every change
+of `_documents`.  From the log the two clauses of the property about a reader that iterates are
+judged on what the real code did, whatever way the library implements the iteration:
+(a) from the first document an iteration hands out to the moment its consumer comes back for the
+last time (to be given the next document, or to be told that there is none) no OTHER thread enters
+a write section;
+(b) the documents handed out are, in order, the content of the collection at one instant between
+the beginning and the end of the iteration (a prefix of it when the consumer stops early).
 """
 import datetime
 import threading
@@ -100,11 +113,14 @@ class MonitorRWLock(object):
                     s.readers_inside += 1
                 if s.writers_inside > 1 or (s.writers_inside and s.readers_inside):
                     s.exclusion_violated = True
+                if w:
+                    s.event('write-enter')
                 try:
                     yield
                 finally:
                     if w:
                         s.writers_inside -= 1
+                        s.event('write-exit')
                     else:
                         s.readers_inside -= 1
         return cm()
@@ -153,6 +169,9 @@ class Scheduler(object):
         self.readers_inside = 0
         self.writers_inside = 0
         self.exclusion_violated = False
+        self.store = None         # the traced store (trace_store)
+        self.states = []          # [(position in trace, ((key, id(doc)), ...), [docs])]
+        self.iterations = []      # [Iteration]
 
     # ---- called from worker threads -------------------------------------------------------
     def hook(self, op):
@@ -169,12 +188,36 @@ class Scheduler(object):
             raise _Abort()
         w.pending = None
         self.steps += 1
+        self.snapshot()
         if op[0] in ('acq', 'rel'):
             w.lock_steps.append(self.steps)
             self.trace.append((w.idx, op[0], op[1].name))
         else:
             self.trace.append((w.idx, op[0]))
         return w.idx
+
+    def me(self):
+        w = self.by_ident.get(threading.get_ident())
+        return None if w is None else w.idx
+
+    def snapshot(self):
+        """note the content of the traced store when it differs from the last one noted (exactly
+        one thread runs at a time, so reading the dict here is safe)"""
+        st = self.store
+        if st is None or self.aborting:
+            return
+        docs = list(st._documents.items())
+        cur = tuple((k, id(d)) for k, d in docs)
+        if not self.states or self.states[-1][1] != cur:
+            self.states.append((len(self.trace), cur, [d for _, d in docs]))
+            self.trace.append((self.me(), 'state', [k for k, _ in docs]))
+
+    def event(self, kind, *extra):
+        """an observation about an iteration / a write section, in the order things happened"""
+        if self.aborting or self.store is None:
+            return
+        self.snapshot()
+        self.trace.append((self.me(), kind) + extra)
 
     # ---- called from the controlling thread ---------------------------------------------------
     def build_store(self, docs0, idx0, ttl0, expired):
@@ -270,8 +313,279 @@ class Scheduler(object):
         return False
 
 
+# ---------------------------------------------------------------------------------------------
+# iterating readers: tracing wrappers and the judgement of clauses (a) and (b)
+
+class Iteration(object):
+    def __init__(self, num, what):
+        self.num = num
+        self.what = what          # 'documents' | 'expiry collection'
+        self.thread = None
+        self.begin = None         # positions in the trace
+        self.first = None
+        self.last = None
+        self.resumed = None       # the last time the consumer asked for the next document
+        self.end = None
+        self.how = None           # 'exhausted' | 'thrown' | 'closed' (None: never finished)
+        self.state0 = None        # index in sched.states of the content when it began
+        self.state1 = None        # ... when it was over
+        self.handed = []          # [(label, identity)] in the order handed out
+        self.field = None         # expiry collection: the field looked at
+
+
+def _doc_key(doc):
+    try:
+        return doc.get('_id')
+    except Exception:  # pylint: disable=broad-except
+        return repr(doc)
+
+
+def trace_store(sched, st, hook_steps):
+    """make `st` an instance of a subclass (created here) of its own class whose iterating
+    readers report to the scheduler's log.  hook_steps: the wrappers are also switch points (one
+    scheduler step per document); False when the consumer itself stops at every document."""
+    base = type(st)
+
+    def begin(what):
+        it = Iteration(len(sched.iterations), what)
+        sched.iterations.append(it)
+        it.thread = sched.me()
+        sched.event('iter-begin', it.num, what)
+        it.begin = len(sched.trace) - 1
+        it.state0 = len(sched.states) - 1
+        return it
+
+    def step(it, label, ident):
+        sched.event('iter-doc', it.num, label)
+        pos = len(sched.trace) - 1
+        if it.first is None:
+            it.first = pos
+        it.last = pos
+        it.handed.append((label, ident))
+        if hook_steps:
+            sched.hook(('yield',))
+
+    def resume(it):
+        """the consumer is back: the iterating code goes on from the document it handed out"""
+        sched.event('iter-resume', it.num)
+        it.resumed = len(sched.trace) - 1
+
+    def finish(it, how):
+        if sched.aborting:
+            return
+        it.how = how
+        sched.event('iter-end', it.num, how)
+        it.end = len(sched.trace) - 1
+        it.state1 = len(sched.states) - 1
+
+    def traced_documents(inner):
+        it = begin('documents')
+        how = 'exhausted'
+        try:
+            try:
+                doc = next(inner)
+            except StopIteration:
+                return
+            while True:
+                step(it, _doc_key(doc), id(doc))
+                try:
+                    yield doc
+                except GeneratorExit:
+                    how = 'closed'
+                    resume(it)
+                    inner.close()
+                    raise
+                except BaseException as exc:  # pylint: disable=broad-except
+                    how = 'thrown'
+                    resume(it)
+                    try:
+                        doc = inner.throw(exc)
+                    except StopIteration:
+                        return
+                else:
+                    resume(it)
+                    try:
+                        doc = next(inner)
+                    except StopIteration:
+                        return
+        except _Abort:
+            how = None
+            raise
+        finally:
+            if how is not None:
+                finish(it, how)
+
+    current = {}                  # thread -> the expiry collection it is inside
+
+    class Traced(base):
+        @property
+        def documents(self):
+            return traced_documents(base.documents.fget(self))
+
+        def _expire_documents(self, index):
+            it = begin('expiry collection')
+            try:
+                it.field = next(iter(index['key']))[0]
+            except Exception:  # pylint: disable=broad-except
+                it.field = None
+            me = sched.me()
+            outer = current.get(me)
+            current[me] = it
+            try:
+                return base._expire_documents(self, index)
+            finally:
+                current[me] = outer
+                finish(it, 'exhausted')
+
+        def _value_meets_expiry(self, val, *args, **kwargs):
+            it = current.get(sched.me())
+            if it is not None:
+                step(it, 'value %r' % (val,), id(val))
+                resume(it)
+            return base._value_meets_expiry(self, val, *args, **kwargs)
+
+    Traced.__name__ = base.__name__
+    st.__class__ = Traced
+    sched.store = st
+    sched.snapshot()
+    return st
+
+
+def judge_iterations(sched):
+    """[{'clause', 'what', 'iteration', ...}]: what in the log contradicts clause (a) / (b)"""
+    out = []
+    trace = sched.trace
+    for it in sched.iterations:
+        if it.first is None:
+            continue
+        desc = {'number': it.num, 'of': it.what, 'thread': it.thread, 'ended': it.how,
+                'handed_out': [h[0] for h in it.handed]}
+        # (a) no other thread enters a write section while the iteration is under way: from the
+        # first document it hands out to the last time the consumer comes back for the next one.
+        # (Once the iterating code runs again after its last document, the reader may leave its
+        # section before the consumer learns that there is no more.)
+        hi = max(it.last, it.resumed or 0)
+        intruders = [(pos, trace[pos][0]) for pos in range(it.first, hi + 1)
+                     if trace[pos][1] == 'write-enter' and trace[pos][0] != it.thread]
+        if intruders:
+            pos, who = intruders[0]
+            out.append({'clause': 'a', 'iteration': desc,
+                        'what': 'thread %d entered a write section while thread %d was in the '
+                                'middle of iterating (%s): %d document(s) handed out before, %d '
+                                'after; writers must exclude a reader that is iterating'
+                                % (who, it.thread, it.what,
+                                   len([1 for q in range(it.first, pos) if trace[q][1] ==
+                                        'iter-doc' and trace[q][2] == it.num]),
+                                   len([1 for q in range(pos, hi + 1) if trace[q][1] ==
+                                        'iter-doc' and trace[q][2] == it.num])),
+                        'writer_thread': who, 'position_in_log': pos,
+                        'write_sections_entered_by_others_during_iteration': len(intruders)})
+        # (b) what was handed out is the content at one instant of the iteration's lifetime
+        if it.how is None or it.state0 is None:
+            continue
+        cands = sched.states[it.state0:(it.state1 if it.state1 is not None
+                                        else len(sched.states) - 1) + 1]
+        handed = [h[1] for h in it.handed]
+
+        def project(state):
+            _, cur, docs = state
+            if it.what == 'documents':
+                return [ident for _, ident in cur]
+            vals = []
+            for d in docs:
+                try:
+                    vals.append(id(d.get(it.field)))
+                except Exception:  # pylint: disable=broad-except
+                    vals.append(None)
+            return vals
+        ok = False
+        for stt in cands:
+            proj = project(stt)
+            if it.how == 'exhausted' and it.what == 'documents':
+                ok = proj == handed
+            elif it.what == 'documents':
+                ok = proj[:len(handed)] == handed
+            else:
+                ok = proj == handed
+            if ok:
+                break
+        if not ok:
+            out.append({'clause': 'b', 'iteration': desc,
+                        'what': 'the %s of thread %d handed out %r (%s), which is the content of '
+                                'the collection at NO instant between its beginning and its end; '
+                                'the collection went through: %s'
+                                % (it.what, it.thread, [h[0] for h in it.handed], it.how,
+                                   ' -> '.join(str([k for k, _ in c[1]]) for c in cands)),
+                        'states_during_iteration': [[k for k, _ in c[1]] for c in cands]})
+    return out
+
+
+def lock_names(st):
+    """{'lock3': '_no_writers', ...} for the cooperative locks of the store's RWLock"""
+    names = {}
+    rw = getattr(st._rwlock, '_inner', st._rwlock)
+    for attr, val in vars(rw).items():
+        if isinstance(val, CoopLock):
+            names[val.name] = attr
+        else:
+            for a2, v2 in getattr(val, '__dict__', {}).items():
+                if isinstance(v2, CoopLock):
+                    names[v2.name] = '%s.%s' % (attr, a2)
+    return names
+
+
+def story(sched, st=None, mark=None):
+    """the log as text lines: which thread did what, in order (lock operations of one thread in a
+    row are put on one line)"""
+    names = lock_names(st) if st is not None else {}
+    lines = []
+    run = None                    # (thread, [ops])
+
+    def flush():
+        if run is not None:
+            lines.append('T%s: %s' % (run[0], ', '.join(run[1])))
+    for pos, e in enumerate(sched.trace):
+        who, kind = e[0], e[1]
+        if kind in ('acq', 'rel'):
+            op = '%s %s' % ('acquire' if kind == 'acq' else 'release', names.get(e[2], e[2]))
+            if run is not None and run[0] == who:
+                run[1].append(op)
+            else:
+                flush()
+                run = (who, [op])
+            continue
+        flush()
+        run = None
+        pre = 'T%s: ' % (who,) if who is not None else 'setup: '
+        if kind in ('yield', 'iter-resume'):
+            continue
+        if kind == 'state':
+            text = '    _documents is now %r' % (e[2],)
+            pre = ''
+        elif kind == 'iter-begin':
+            text = 'iteration #%d begins (%s)' % (e[2], e[3])
+        elif kind == 'iter-doc':
+            text = 'iteration #%d hands out %s' % (e[2], e[3] if isinstance(e[3], str)
+                                                    else 'the document with _id %r' % (e[3],))
+        elif kind == 'iter-end':
+            text = 'iteration #%d is over (%s)' % (e[2], e[3])
+        elif kind == 'write-enter':
+            text = 'ENTERS a write section'
+        elif kind == 'write-exit':
+            text = 'leaves the write section'
+        else:
+            text = ' '.join(str(x) for x in e[1:])
+        if mark is not None and pos == mark:
+            text += '      <=== here'
+        lines.append(pre + text)
+    flush()
+    return lines
+
+
 def make_doc(k, expired):
-    return {'_id': k, 't': OLD} if k in expired else {'_id': k}
+    # every expired document has a `t` of its own: the expiry collection is traced by the values
+    # it looks at
+    return {'_id': k, 't': OLD + datetime.timedelta(seconds=k)} if k in expired else {'_id': k}
 
 
 def exc_name(e):
@@ -324,13 +638,15 @@ def do_call(sched, st, call, expired):
         raise SchedulerError('unknown call ' + m)
 
 
-def replay(scenario, schedule):
+def replay(scenario, schedule, with_story=False):
     """scenario = {'docs0','idx0','ttl0','expired': lists of ints, 'progs': [[(m,key,throwAt)]]}
-    returns the outcome dict"""
+    returns the outcome dict ('story': the log as text, when asked for or when something is
+    wrong)"""
     sched = Scheduler()
     st = sched.build_store(scenario['docs0'], scenario['idx0'], scenario['ttl0'],
                            scenario['expired'])
     expired = set(scenario['expired'])
+    trace_store(sched, st, hook_steps=False)
 
     def body_for(prog):
         def body(w):
@@ -339,6 +655,7 @@ def replay(scenario, schedule):
                     do_call(sched, st, call, expired)
                 except Exception as e:  # pylint: disable=broad-except
                     w.events.append((ci, exc_name(e)))
+                    sched.event('call %d (%s) raises' % (ci, call[0]), exc_name(e))
         return body
     for prog in scenario['progs']:
         sched.add_worker(body_for(prog))
@@ -347,6 +664,7 @@ def replay(scenario, schedule):
 
     def ids(names):
         return [int(n[1:]) for n in names]
+    verdicts = judge_iterations(sched) if status == 'completed' else []
     rw = st._rwlock._inner
     counters = [getattr(getattr(rw, a, None), '_counter', None)
                 for a in ('_read_switch', '_write_switch')]
@@ -355,6 +673,10 @@ def replay(scenario, schedule):
             'docs': list(st._documents.keys()), 'idx': ids(st.indexes.keys()),
             'ttl': ids(st._ttl_indexes.keys()), 'free': free, 'overlap': sched.overlap(),
             'excl': sched.exclusion_violated,
+            'iter': verdicts,
+            'iterations': len([it for it in sched.iterations if it.first is not None]),
+            'story': (story(sched, st) if with_story or verdicts or events
+                      or status != 'completed' or sched.exclusion_violated else None),
             'used': used, 'blocked': blocked, 'lock_ops': len([x for x in sched.trace
                                                                if x[0] is not None and
                                                                x[1] in ('acq', 'rel')])}
